@@ -31,3 +31,56 @@ theorem induct (P : PyVal → Prop)
   · intro k v ih; exact ih
 
 end PyVal
+
+namespace PyVal
+
+/-! ## the mutually recursive list functions as ordinary list statements -/
+
+theorem mhL_eq_map (l : List PyVal) : mhL l = l.map mh := by
+  induction l with
+  | nil => simp [mhL]
+  | cons x xs ih => simp [mhL, ih]
+
+theorem mhKV_eq_map (d : PyDict) : mhKV d = d.map (fun kv => (kv.1, mh kv.2)) := by
+  induction d with
+  | nil => simp [mhKV]
+  | cons kv t ih => obtain ⟨k, v⟩ := kv; simp [mhKV, mhP, ih]
+
+theorem allMem_iff (a b : List PyVal) : allMem a b = true ↔ ∀ x ∈ a, ∃ y ∈ b, pyEq x y = true := by
+  induction a with
+  | nil => simp [allMem]
+  | cons x xs ih => simp [allMem, ih]
+
+theorem allLookup_iff (a b : PyDict) :
+    allLookup a b = true ↔ ∀ kv ∈ a, ∃ v', b.lookup kv.1 = some v' ∧ pyEq kv.2 v' = true := by
+  induction a with
+  | nil => simp [allLookup]
+  | cons kv t ih =>
+    obtain ⟨k, v⟩ := kv
+    simp only [allLookup, Bool.and_eq_true, ih, List.mem_cons, forall_eq_or_imp]
+    constructor
+    · rintro ⟨h1, h2⟩
+      refine ⟨?_, h2⟩
+      cases hb : b.lookup k with
+      | none => simp [hb] at h1
+      | some v' => simp [hb, pyEqSnd] at h1; exact ⟨v', rfl, h1⟩
+    · rintro ⟨⟨v', hv', he⟩, h2⟩
+      exact ⟨by simp [hv', pyEqSnd, he], h2⟩
+
+/-- pointwise lifting through `eqList` -/
+theorem eqList_map (f : PyVal → PyVal) :
+    ∀ (a b : List PyVal), (∀ x ∈ a, ∀ w, pyEq x w = true → pyEq (f x) (f w) = true) →
+      eqList a b = true → eqList (a.map f) (b.map f) = true := by
+  intro a
+  induction a with
+  | nil => intro b _ h; cases b <;> simp_all [eqList]
+  | cons x xs ih =>
+    intro b hf h
+    cases b with
+    | nil => simp [eqList] at h
+    | cons y ys =>
+      simp only [eqList, Bool.and_eq_true] at h
+      simp only [List.map_cons, eqList, Bool.and_eq_true]
+      exact ⟨hf x (by simp) y h.1, ih ys (fun z hz => hf z (by simp [hz])) h.2⟩
+
+end PyVal
